@@ -91,3 +91,12 @@ func init() {
 		},
 	}
 }
+
+func init() {
+	metaTable["C19"] = propMeta{Level: "exploration", Assumptions: commonAssumptions,
+		Rule: "per case a server with a listener of one kind (IPv4, IPv6, 0.0.0.0, [::]; strict or listener-derived family) plus a TCP listener, clients on IPv4 / IPv6 / IPv4-mapped source addresses and a quota-refused user run a random sequence of: Binding; 11 Allocate error paths; plain Allocate + reachability probe of the advertised relayed address + byte-identical retransmission (after 0..31 s) + a different Allocate on the live 5-tuple; identical transaction ids from two clients in one instant; EVEN-PORT/RESERVATION-TOKEN; " +
+			"a monitor on every datagram the server writes checks transaction id, destination, method and answer count; state digests (hook snapshot + AllocationCount + open relay sockets + generator call count) are compared before/after every failed or repeated request; " +
+			"non-trivial = distinct (situation x parameters x response code) fingerprints",
+		NonTrivial: func(fp string) bool { return true },
+	}
+}
